@@ -294,6 +294,17 @@ func (ref *TypeReference) UniquenessKey() string {
 		// Fix for #896
 		elemNullability = "ᚄ"
 	}
+	// nested lists: the nullability of every deeper level is part of the key too,
+	// [[T]] and [[T!]] share a Go type but need different (un)marshalers
+	if ref.GQL.Elem != nil {
+		for t := ref.GQL.Elem.Elem; t != nil; t = t.Elem {
+			if t.NonNull {
+				elemNullability += "ᚄ"
+			} else {
+				elemNullability += "ᚃ"
+			}
+		}
+	}
 	return nullability + ref.Definition.Name + "2" + templates.TypeIdentifier(ref.GO) + elemNullability
 }
 
